@@ -1,118 +1,129 @@
 (* Model/Wire.v -- transcription of the parts of internal/dnsmessage (Parser,
-   Name.unpackCompressed, skipName, skipResource, unpackOPTResource) that
-   resolver/query uses.  Definitions only.
+   Name.unpackCompressed, skipName, skipResource, unpackOPTResource, Name.pack)
+   that resolver/query and proxy/util use.  Definitions only.
 
-   Conventions: msg : bytes, offsets are Z.  Every Go slice index that the
-   code guards with an explicit length test is modelled by the same test;
-   reads go through [rd], which yields None when out of range -- callers that
-   would index out of range in Go return [Panic]. *)
+   Representation: the parser's position is a cursor (off, rest) with the
+   invariant rest = skipn off msg; sequential reads pattern-match on [rest]
+   (Go's "if off+k > len(msg) { return err }" followed by msg[off..] is one
+   match), compression pointers re-enter the whole message with [dropz].
+   Name walking is structural recursion on the remaining bytes, and the
+   pointer budget is Go's own "ptr > 10" test, so no artificial fuel is needed
+   for names.  Loops bounded by a 16-bit count use that count as fuel. *)
 From NX Require Export Bytes.
 Open Scope Z_scope.
 
-(* error enum *)
 Definition eBaseLen := 1.    Definition eCalcLen := 2.   Definition eReserved := 3.
 Definition eTooManyPtr := 4. Definition eInvalidPtr := 5. Definition eResourceLen := 6.
 Definition eNotStarted := 7. Definition eSectionDone := 8. Definition eSegTooLong := 9.
 Definition eZeroSegLen := 10. Definition eNonCanonical := 11. Definition eNameTooLong := 12.
 
-Definition rd (msg : bytes) (off : Z) : option Z :=
-  if off <? 0 then None else nth_error msg (Z.to_nat off).
+Definition cur := (Z * bytes)%type.
 
-(* unpackUint16(msg, off): if off+2 > len(msg) error *)
-Definition unpack16 (msg : bytes) (off : Z) : res (Z * Z) :=
-  if off + 2 >? len msg then Err eBaseLen else
-  match dropz off msg with
-  | a :: b :: _ => Ok (u16 a b, off + 2)
-  | _ => Panic
+Definition get16 (c : cur) : res (Z * cur) :=
+  match snd c with
+  | a :: b :: r => Ok (u16 a b, (fst c + 2, r))
+  | _ => Err eBaseLen
+  end.
+Definition get32 (c : cur) : res (Z * cur) :=
+  match snd c with
+  | a :: b :: c' :: d :: r => Ok (u32 a b c' d, (fst c + 4, r))
+  | _ => Err eBaseLen
   end.
 
-Definition unpack32 (msg : bytes) (off : Z) : res (Z * Z) :=
-  if off + 4 >? len msg then Err eBaseLen else
-  match dropz off msg with
-  | a :: b :: c :: d :: _ => Ok (u32 a b c d, off + 4)
-  | _ => Panic
+(* advance exactly k bytes; None when fewer remain *)
+Fixpoint drop_exact (k : nat) (l : bytes) : option bytes :=
+  match k with
+  | O => Some l
+  | S k' => match l with [] => None | _ :: r => drop_exact k' r end
+  end.
+Fixpoint take_exact (k : nat) (l : bytes) : option bytes :=
+  match k with
+  | O => Some []
+  | S k' => match l with [] => None | x :: r =>
+              match take_exact k' r with Some t => Some (x :: t) | None => None end end
+  end.
+Definition advance (k : Z) (c : cur) : option cur :=
+  match drop_exact (Z.to_nat k) (snd c) with
+  | Some r => Some (fst c + k, r)
+  | None => None
   end.
 
-Definition skip16 (msg : bytes) (off : Z) : res Z :=
-  if off + 2 >? len msg then Err eBaseLen else Ok (off + 2).
-Definition skip32 (msg : bytes) (off : Z) : res Z :=
-  if off + 4 >? len msg then Err eBaseLen else Ok (off + 4).
-
-(* skipName(msg, off) *)
-Fixpoint skip_name_loop (fuel : nat) (msg : bytes) (off : Z) : res Z :=
-  match fuel with
-  | O => OutOfFuel
-  | S f =>
-    if off >=? len msg then Err eBaseLen else
-    match rd msg off with
-    | None => Panic
-    | Some c =>
-      let off1 := off + 1 in
-      let k := Z.land c 192 in
-      if k =? 0 then
-        if c =? 0 then Ok off1
-        else let off2 := off1 + c in
-             if off2 >? len msg then Err eCalcLen else skip_name_loop f msg off2
-      else if k =? 192 then Ok (off1 + 1)
+(* skipName(msg, off).  k = bytes of the current label still to skip. *)
+Fixpoint skip_name_go (rest : bytes) (k : nat) (off : Z) : res cur :=
+  match rest with
+  | [] => Err (match k with O => eBaseLen | _ => eCalcLen end)
+  | c :: r =>
+    match k with
+    | S k' => skip_name_go r k' (off + 1)
+    | O =>
+      let kind := Z.land c 192 in
+      if kind =? 0 then
+        if c =? 0 then Ok (off + 1, r) else skip_name_go r (Z.to_nat c) (off + 1)
+      else if kind =? 192 then
+        (* newOff++ without a bounds test: when the pointer's second byte is
+           missing every later read fails, as it does on an empty suffix *)
+        Ok (off + 2, match r with [] => [] | _ :: r' => r' end)
       else Err eReserved
     end
   end.
-Definition name_fuel (msg : bytes) : nat := S (length msg).
-Definition skip_name (msg : bytes) (off : Z) : res Z := skip_name_loop (name_fuel msg) msg off.
+Definition skip_name (c : cur) : res cur := skip_name_go (snd c) O (fst c).
 
-(* Name.unpackCompressed(msg, off, true): returns (name string, newOff) *)
-Fixpoint unpack_name_loop (fuel : nat) (msg : bytes) (cur ptr newoff : Z) (name : bytes)
-  : res (bytes * Z) :=
-  match fuel with
-  | O => OutOfFuel
-  | S f =>
-    if cur >=? len msg then Err eBaseLen else
-    match rd msg cur with
-    | None => Panic
-    | Some c =>
-      let cur1 := cur + 1 in
-      let k := Z.land c 192 in
-      if k =? 0 then
-        if c =? 0 then
-          let name' := match name with [] => [46] | _ => name end in
-          if len name' >? 255 then Err eCalcLen
-          else Ok (name', if ptr =? 0 then cur1 else newoff)
-        else
-          let e := cur1 + c in
-          if e >? len msg then Err eCalcLen
-          else unpack_name_loop f msg e ptr newoff
-                 (name ++ takez c (dropz cur1 msg) ++ [46])
-      else if k =? 192 then
-        if cur1 >=? len msg then Err eInvalidPtr else
-        match rd msg cur1 with
-        | None => Panic
-        | Some c1 =>
-          let cur2 := cur1 + 1 in
-          let newoff' := if ptr =? 0 then cur2 else newoff in
-          if ptr + 1 >? 10 then Err eTooManyPtr
-          else unpack_name_loop f msg (Z.lor (Z.shiftl (Z.lxor c 192) 8) c1) (ptr + 1) newoff' name
+(* Name.unpackCompressed: the label walk up to the end of the name or the
+   next pointer.  The name is accumulated reversed. *)
+Inductive lbl_res :=
+| LEnd (rname : bytes) (c : cur)
+| LPtr (target : Z) (rname : bytes) (c : cur)
+| LErr (e : Z).
+
+Fixpoint labels (rest : bytes) (k : nat) (off : Z) (rname : bytes) : lbl_res :=
+  match rest with
+  | [] => LErr (match k with O => eBaseLen | _ => eCalcLen end)
+  | c :: r =>
+    match k with
+    | S k' => labels r k' (off + 1) (match k' with O => 46 :: c :: rname | _ => c :: rname end)
+    | O =>
+      let kind := Z.land c 192 in
+      if kind =? 0 then
+        if c =? 0 then LEnd rname (off + 1, r) else labels r (Z.to_nat c) (off + 1) rname
+      else if kind =? 192 then
+        match r with
+        | [] => LErr eInvalidPtr
+        | c1 :: r' => LPtr (Z.lor (Z.shiftl (Z.lxor c 192) 8) c1) rname (off + 2, r')
         end
-      else Err eReserved
+      else LErr eReserved
     end
   end.
-(* every iteration either consumes a label (cur grows by >= 2, stays <= len)
-   or follows one of at most 10 pointers: 11 * (len+1) + 1 iterations suffice *)
-Definition unpack_fuel (msg : bytes) : nat := S (11 * S (length msg)).
-Definition unpack_name (msg : bytes) (off : Z) : res (bytes * Z) :=
-  unpack_name_loop (unpack_fuel msg) msg off 0 off [].
+
+(* budget = pointers still allowed (Go: "if ptr++; ptr > 10 { errTooManyPtr }") *)
+Fixpoint unpack_name_go (budget : nat) (msg : bytes) (c : cur) (first : bool) (rname : bytes) (newc : cur)
+  : res (bytes * cur) :=
+  match labels (snd c) O (fst c) rname with
+  | LErr e => Err e
+  | LEnd rn c' =>
+    let name := match rn with [] => [46] | _ => rev rn end in
+    if len name >? 255 then Err eCalcLen
+    else Ok (name, if first then c' else newc)
+  | LPtr tgt rn c' =>
+    match budget with
+    | O => Err eTooManyPtr
+    | S b => unpack_name_go b msg (tgt, dropz tgt msg) false rn (if first then c' else newc)
+    end
+  end.
+Definition unpack_name (msg : bytes) (c : cur) : res (bytes * cur) :=
+  unpack_name_go 10 msg c true [] c.
 
 (* header *)
 Record header := mkHeader {
   h_id : Z; h_bits : Z; h_qd : Z; h_an : Z; h_ns : Z; h_ar : Z }.
 
-Definition unpack_header (msg : bytes) : res (header * Z) :=
-  do '(id, o1) <- unpack16 msg 0;
-  do '(bits, o2) <- unpack16 msg o1;
-  do '(qd, o3) <- unpack16 msg o2;
-  do '(an, o4) <- unpack16 msg o3;
-  do '(ns, o5) <- unpack16 msg o4;
-  do '(ar, o6) <- unpack16 msg o5;
-  Ok (mkHeader id bits qd an ns ar, o6).
+Definition unpack_header (msg : bytes) : res (header * cur) :=
+  do '(id, c1) <- get16 (0, msg);
+  do '(bits, c2) <- get16 c1;
+  do '(qd, c3) <- get16 c2;
+  do '(an, c4) <- get16 c3;
+  do '(ns, c5) <- get16 c4;
+  do '(ar, c6) <- get16 c5;
+  Ok (mkHeader id bits qd an ns ar, c6).
 
 (* sections: 1 questions, 2 answers, 3 authorities, 4 additionals, 5 done *)
 Definition secQ := 1. Definition secAn := 2. Definition secNs := 3. Definition secAr := 4.
@@ -124,78 +135,79 @@ Record rheader := mkRH { rh_name : bytes; rh_type : Z; rh_class : Z; rh_ttl : Z;
 Definition rh0 := mkRH [] 0 0 0 0.
 
 Record parser := mkParser {
-  p_hdr : header; p_sec : Z; p_off : Z; p_idx : Z; p_hv : bool; p_rh : rheader }.
+  p_hdr : header; p_sec : Z; p_cur : cur; p_idx : Z; p_hv : bool; p_rh : rheader }.
 
 Definition p_start (msg : bytes) : res parser :=
-  do '(h, off) <- unpack_header msg;
-  Ok (mkParser h secQ off 0 false rh0).
+  do '(h, c) <- unpack_header msg;
+  Ok (mkParser h secQ c 0 false rh0).
 
-(* checkAdvance: returns the new parser state and nil (None) or an error *)
+Definition set_cur (p : parser) (c : cur) (idx : Z) (hv : bool) (rh : rheader) : parser :=
+  mkParser (p_hdr p) (p_sec p) c idx hv rh.
+
+(* checkAdvance *)
 Definition check_advance (p : parser) (sec : Z) : parser * option Z :=
   if p_sec p <? sec then (p, Some eNotStarted)
   else if p_sec p >? sec then (p, Some eSectionDone)
   else
-    let p1 := mkParser (p_hdr p) (p_sec p) (p_off p) (p_idx p) false (p_rh p) in
     if p_idx p =? count (p_hdr p) sec then
-      (mkParser (p_hdr p) (p_sec p + 1) (p_off p) 0 false (p_rh p), Some eSectionDone)
-    else (p1, None).
+      (mkParser (p_hdr p) (p_sec p + 1) (p_cur p) 0 false (p_rh p), Some eSectionDone)
+    else (set_cur p (p_cur p) (p_idx p) false (p_rh p), None).
+
+Definition lift {A B} (p : parser) (r : res A) (k : A -> parser * res B) : parser * res B :=
+  match r with
+  | Ok a => k a
+  | Err e => (p, Err e) | Panic => (p, Panic) | OutOfFuel => (p, OutOfFuel)
+  end.
 
 (* Parser.Question *)
 Definition p_question (msg : bytes) (p : parser) : parser * res (bytes * Z * Z) :=
   match check_advance p secQ with
   | (p1, Some e) => (p1, Err e)
   | (p1, None) =>
-    let r :=
-      do '(name, o1) <- unpack_name msg (p_off p1);
-      do '(typ, o2) <- unpack16 msg o1;
-      do '(cls, o3) <- unpack16 msg o2;
-      Ok (name, typ, cls, o3) in
-    match r with
-    | Ok (name, typ, cls, o3) =>
-        (mkParser (p_hdr p1) (p_sec p1) o3 (p_idx p1 + 1) (p_hv p1) (p_rh p1), Ok (name, typ, cls))
-    | Err e => (p1, Err e) | Panic => (p1, Panic) | OutOfFuel => (p1, OutOfFuel)
-    end
+    lift p1 (do '(name, c1) <- unpack_name msg (p_cur p1);
+             do '(typ, c2) <- get16 c1;
+             do '(cls, c3) <- get16 c2;
+             Ok (name, typ, cls, c3))
+      (fun '(name, typ, cls, c3) => (set_cur p1 c3 (p_idx p1 + 1) (p_hv p1) (p_rh p1), Ok (name, typ, cls)))
   end.
 
-Definition p_skip_question (msg : bytes) (p : parser) : parser * res unit :=
-  match check_advance p secQ with
+(* common shape of SkipQuestion and (unlatched) skipResource: checkAdvance, run
+   a reader from the current offset, on success store the offset and count *)
+Definition generic_skip (reader : cur -> res cur) (p : parser) (sec : Z) : parser * res unit :=
+  match check_advance p sec with
   | (p1, Some e) => (p1, Err e)
   | (p1, None) =>
-    let r := do o1 <- skip_name msg (p_off p1); do o2 <- skip16 msg o1; skip16 msg o2 in
-    match r with
-    | Ok o3 => (mkParser (p_hdr p1) (p_sec p1) o3 (p_idx p1 + 1) (p_hv p1) (p_rh p1), Ok tt)
-    | Err e => (p1, Err e) | Panic => (p1, Panic) | OutOfFuel => (p1, OutOfFuel)
-    end
+    lift p1 (reader (p_cur p1))
+      (fun c => (set_cur p1 c (p_idx p1 + 1) (p_hv p1) (p_rh p1), Ok tt))
   end.
 
+Definition skip_question_body (c : cur) : res cur :=
+  do c1 <- skip_name c; do '(_, c2) <- get16 c1; do '(_, c3) <- get16 c2; Ok c3.
+
+Definition p_skip_question (p : parser) : parser * res unit :=
+  generic_skip skip_question_body p secQ.
+
 (* skipResource(msg, off) *)
-Definition skip_resource (msg : bytes) (off : Z) : res Z :=
-  do o1 <- skip_name msg off;
-  do o2 <- skip16 msg o1;
-  do o3 <- skip16 msg o2;
-  do o4 <- skip32 msg o3;
-  do '(l, o5) <- unpack16 msg o4;
-  if o5 + l >? len msg then Err eResourceLen else Ok (o5 + l).
+Definition skip_resource (c : cur) : res cur :=
+  do c1 <- skip_name c;
+  do '(_, c2) <- get16 c1;
+  do '(_, c3) <- get16 c2;
+  do '(_, c4) <- get32 c3;
+  do '(l, c5) <- get16 c4;
+  match advance l c5 with Some c6 => Ok c6 | None => Err eResourceLen end.
 
 (* Parser.skipResource(sec) *)
-Definition p_skip_resource (msg : bytes) (p : parser) (sec : Z) : parser * res unit :=
+Definition p_skip_resource (p : parser) (sec : Z) : parser * res unit :=
   if p_hv p then
-    let newoff := p_off p + rh_len (p_rh p) in
-    if newoff >? len msg then (p, Err eResourceLen)
-    else (mkParser (p_hdr p) (p_sec p) newoff (p_idx p + 1) false (p_rh p), Ok tt)
-  else
-    match check_advance p sec with
-    | (p1, Some e) => (p1, Err e)
-    | (p1, None) =>
-      match skip_resource msg (p_off p1) with
-      | Ok o => (mkParser (p_hdr p1) (p_sec p1) o (p_idx p1 + 1) (p_hv p1) (p_rh p1), Ok tt)
-      | Err e => (p1, Err e) | Panic => (p1, Panic) | OutOfFuel => (p1, OutOfFuel)
-      end
-    end.
+    match advance (rh_len (p_rh p)) (p_cur p) with
+    | None => (p, Err eResourceLen)
+    | Some c => (set_cur p c (p_idx p + 1) false (p_rh p), Ok tt)
+    end
+  else generic_skip skip_resource p sec.
 
 (* SkipAllQuestions / SkipAllAnswers / SkipAllAuthorities: loop until an error;
-   ErrSectionDone means nil.  The result error is discarded by query.parse, only
-   the parser state matters. *)
+   query.parse discards the error, only the parser state matters.  Each
+   successful step increments the index, bounded by the 16-bit section count. *)
 Fixpoint skip_all (fuel : nat) (step : parser -> parser * res unit) (p : parser) : res parser :=
   match fuel with
   | O => OutOfFuel
@@ -207,17 +219,16 @@ Fixpoint skip_all (fuel : nat) (step : parser -> parser * res unit) (p : parser)
     | (_, OutOfFuel) => OutOfFuel
     end
   end.
-(* each successful step increments index, which started <= count <= 65535 *)
 Definition skip_all_fuel (h : header) (sec : Z) : nat := S (S (Z.to_nat (count h sec))).
 
 (* ResourceHeader.unpack *)
-Definition unpack_rheader (msg : bytes) (off : Z) : res (rheader * Z) :=
-  do '(name, o1) <- unpack_name msg off;
-  do '(typ, o2) <- unpack16 msg o1;
-  do '(cls, o3) <- unpack16 msg o2;
-  do '(ttl, o4) <- unpack32 msg o3;
-  do '(l, o5) <- unpack16 msg o4;
-  Ok (mkRH name typ cls ttl l, o5).
+Definition unpack_rheader (msg : bytes) (c : cur) : res (rheader * cur) :=
+  do '(name, c1) <- unpack_name msg c;
+  do '(typ, c2) <- get16 c1;
+  do '(cls, c3) <- get16 c2;
+  do '(ttl, c4) <- get32 c3;
+  do '(l, c5) <- get16 c4;
+  Ok (mkRH name typ cls ttl l, c5).
 
 (* Parser.resourceHeader(sec) *)
 Definition p_resource_header (msg : bytes) (p : parser) (sec : Z) : parser * res rheader :=
@@ -226,43 +237,35 @@ Definition p_resource_header (msg : bytes) (p : parser) (sec : Z) : parser * res
     match check_advance p sec with
     | (p1, Some e) => (p1, Err e)
     | (p1, None) =>
-      match unpack_rheader msg (p_off p1) with
-      | Ok (h, o) => (mkParser (p_hdr p1) (p_sec p1) o (p_idx p1) true h, Ok h)
-      | Err e => (p1, Err e) | Panic => (p1, Panic) | OutOfFuel => (p1, OutOfFuel)
-      end
+      lift p1 (unpack_rheader msg (p_cur p1))
+        (fun '(h, c) => (set_cur p1 c (p_idx p1) true h, Ok h))
     end.
 
-(* unpackOPTResource(msg, off, length) -> list of (code, data, dataOffset) *)
+(* unpackOPTResource(msg, off, length): options as (code, data, dataOffset).
+   left = oldOff + length - off; each iteration consumes >= 4 of it. *)
 Record option_ := mkOpt { o_code : Z; o_data : bytes; o_off : Z }.
 
-Fixpoint unpack_opts (fuel : nat) (msg : bytes) (off stop : Z) (acc : list option_)
-  : res (list option_) :=
+Fixpoint unpack_opts (fuel : nat) (c : cur) (left : Z) (acc : list option_) : res (list option_) :=
   match fuel with
   | O => OutOfFuel
   | S f =>
-    if off <? stop then
-      do '(code, o1) <- unpack16 msg off;
-      do '(l, o2) <- unpack16 msg o1;
-      (* o.Data = make([]byte, l); copy(o.Data, msg[off:]) != int(l) -> error.
-         msg[off:] needs off <= len(msg), guaranteed by unpack16's check. *)
-      if o2 >? len msg then Panic else
-      if len msg - o2 <? l then Err eCalcLen
-      else unpack_opts f msg (o2 + l) stop (acc ++ [mkOpt code (takez l (dropz o2 msg)) o2])
+    if 0 <? left then
+      do '(code, c1) <- get16 c;
+      do '(l, c2) <- get16 c1;
+      match take_exact (Z.to_nat l) (snd c2), advance l c2 with
+      | Some d, Some c3 => unpack_opts f c3 (left - 4 - l) (acc ++ [mkOpt code d (fst c2)])
+      | _, _ => Err eCalcLen
+      end
     else Ok acc
   end.
-Definition opts_fuel (msg : bytes) : nat := S (length msg).
+Definition opts_fuel (rdlen : Z) : nat := S (Z.to_nat rdlen).
 
-(* Parser.OPTResource *)
-Definition p_opt_resource (msg : bytes) (p : parser) : parser * res (list option_) :=
-  if negb (p_hv p) || negb (rh_type (p_rh p) =? 41) then (p, Err eNotStarted)
-  else
-    match unpack_opts (opts_fuel msg) msg (p_off p) (p_off p + rh_len (p_rh p)) [] with
-    | Ok os => (mkParser (p_hdr p) (p_sec p) (p_off p + rh_len (p_rh p)) (p_idx p + 1) false (p_rh p), Ok os)
-    | Err e => (p, Err e) | Panic => (p, Panic) | OutOfFuel => (p, OutOfFuel)
-    end.
+(* Parser.OPTResource (the parser is not used afterwards by query.parse) *)
+Definition p_opt_resource (p : parser) : res (list option_) :=
+  if negb (p_hv p) || negb (rh_type (p_rh p) =? 41) then Err eNotStarted
+  else unpack_opts (opts_fuel (rh_len (p_rh p))) (p_cur p) (rh_len (p_rh p)) [].
 
 (* ---- Name.pack (no compression) as used by replyRCode's Builder.Question ---- *)
-(* n = q.Name as string (bytes). Returns the wire form or an error. *)
 Fixpoint pack_segments (s : bytes) (seg : bytes) (acc : bytes) : res bytes :=
   match s with
   | [] => Ok (acc ++ [0])
@@ -275,7 +278,7 @@ Fixpoint pack_segments (s : bytes) (seg : bytes) (acc : bytes) : res bytes :=
   end.
 
 Definition pack_name (n : bytes) : res bytes :=
-  if len n >? 255 then Err eNameTooLong (* NewName fails: Name{} -> Length 0 -> non canonical *)
+  if len n >? 255 then Err eNameTooLong (* NewName fails: Name{} has Length 0 *)
   else match n with
   | [] => Err eNonCanonical
   | _ =>
